@@ -142,20 +142,26 @@ pub fn bool_character_expression() {
     let b: bool = kani::any();
     let mut out = Out::new();
     assert!(b.format_response_data(&mut out).is_ok() && bytes_eq(&out, if b { b"1" } else { b"0" }), "C09/bool::format_response_data/0-or-1");
-    let back = bool::try_from(Token::DecimalNumericProgramData(&out));
-    assert!(back == Ok(b), "C09/bool::format_response_data/own-parser-returns-the-value");
-    let p: [u8; 5] = kani::any();
-    let s = any_prefix(&p);
+    // lengths are concrete per case (core's is_ascii picks its algorithm by length), content symbolic
+    let p: [u8; 4] = kani::any();
     let mut i = 0;
-    while i < s.len() {
-        kani::assume(s[i] < 0x80);
+    while i < 4 {
+        kani::assume(p[i] < 0x80);
         i += 1;
     }
-    let mut out = Out::new();
-    assert!(Character(s).format_response_data(&mut out).is_ok() && bytes_eq(&out, s), "C09/Character::format_response_data/emits-the-characters");
-    let mut out = Out::new();
-    assert!(Expression(s).format_response_data(&mut out).is_ok(), "C09/Expression::format_response_data/ok");
-    assert!(out.len() == s.len() + 2 && out[0] == b'(' && out[out.len() - 1] == b')' && bytes_eq(&out[1..out.len() - 1], s), "C09/Expression::format_response_data/parenthesised-content");
+    macro_rules! case {
+        ($n:expr) => {{
+            let s = &p[..$n];
+            let mut out = Out::new();
+            assert!(Character(s).format_response_data(&mut out).is_ok() && bytes_eq(&out, s), "C09/Character::format_response_data/emits-the-characters");
+            let mut out = Out::new();
+            assert!(Expression(s).format_response_data(&mut out).is_ok(), "C09/Expression::format_response_data/ok");
+            assert!(out.len() == s.len() + 2 && out[0] == b'(' && out[out.len() - 1] == b')' && bytes_eq(&out[1..out.len() - 1], s), "C09/Expression::format_response_data/parenthesised-content");
+        }};
+    }
+    case!(0);
+    case!(1);
+    case!(4);
 }
 
 /// Expression data round trip through the library's own lexer and conversion.
@@ -200,37 +206,49 @@ fn quoted(s: &[u8], e: &mut [u8; 32]) -> usize {
     n + 1
 }
 
-macro_rules! string_harness {
-    ($name:ident, $n:expr, $unwind:expr) => {
-        #[kani::proof]
-        #[kani::unwind($unwind)]
-        pub fn $name() {
-            let p: [u8; $n] = kani::any();
-            let s = any_prefix(&p);
-            let mut ascii = true;
-            let mut i = 0;
-            while i < s.len() {
-                if s[i] >= 0x80 {
-                    ascii = false;
-                }
-                i += 1;
+/// Strings: content symbolic (every byte value, quotes at every position), length concrete per
+/// case 0..=N.
+macro_rules! string_case {
+    ($p:expr, $n:expr) => {{
+        let s = &$p[..$n];
+        let mut ascii = true;
+        let mut i = 0;
+        while i < $n {
+            if s[i] >= 0x80 {
+                ascii = false;
             }
-            let mut out = Out::new();
-            let r = s.format_response_data(&mut out);
-            kani::cover!(ascii && s.len() == $n && s[0] == b'"' && s[$n - 1] == b'"');
-            if !ascii {
-                assert!(r.is_err(), "C09/<&[u8]>::format_response_data/non-ASCII-content-is-refused");
-            } else {
-                let mut e = [0u8; 32];
-                let n = quoted(s, &mut e);
-                assert!(r.is_ok(), "C09/<&[u8]>::format_response_data/ok");
-                assert!(bytes_eq(&out, &e[..n]), "C09/<&[u8]>::format_response_data/quoted-with-embedded-quotes-doubled");
-            }
+            i += 1;
         }
-    };
+        let mut out = Out::new();
+        let r = s.format_response_data(&mut out);
+        if !ascii {
+            assert!(r.is_err(), "C09/<&[u8]>::format_response_data/non-ASCII-content-is-refused");
+        } else {
+            let mut e = [0u8; 32];
+            let n = quoted(s, &mut e);
+            assert!(r.is_ok(), "C09/<&[u8]>::format_response_data/ok");
+            assert!(bytes_eq(&out, &e[..n]), "C09/<&[u8]>::format_response_data/quoted-with-embedded-quotes-doubled");
+        }
+    }};
 }
-string_harness!(string_n4, 4, 14);
-string_harness!(string_n8, 8, 24);
+#[kani::proof]
+#[kani::unwind(12)]
+pub fn string_n3() {
+    let p: [u8; 3] = kani::any();
+    kani::cover!(p[0] == b'"' && p[2] == b'"');
+    string_case!(p, 0);
+    string_case!(p, 1);
+    string_case!(p, 2);
+    string_case!(p, 3);
+}
+#[kani::proof]
+#[kani::unwind(20)]
+pub fn string_n6() {
+    let p: [u8; 6] = kani::any();
+    string_case!(p, 4);
+    string_case!(p, 5);
+    string_case!(p, 6);
+}
 
 /// Own-parser round trip of strings WITHOUT an embedded double quote.
 #[kani::proof]
@@ -267,40 +285,49 @@ pub fn string_roundtrip_with_quote() {
     }
 }
 
-macro_rules! block_harness {
-    ($name:ident, $n:expr, $unwind:expr) => {
-        #[kani::proof]
-        #[kani::unwind($unwind)]
-        pub fn $name() {
-            let p: [u8; $n] = kani::any();
-            let s = any_prefix(&p);
-            let as_str: bool = kani::any();
-            let mut out = Out::new();
-            kani::cover!(s.len() == 9);
-            kani::cover!(s.len() == 10);
-            let r = if as_str {
-                let mut i = 0;
-                while i < s.len() {
-                    kani::assume(s[i] < 0x80);
-                    i += 1;
-                }
-                core::str::from_utf8(s).unwrap().format_response_data(&mut out)
-            } else {
-                Arbitrary(s).format_response_data(&mut out)
-            };
-            assert!(r.is_ok(), "C09/Arbitrary::format_response_data/ok");
-            // '#', one digit giving the number of length digits, the length, the payload
-            let mut d = [0u8; 40];
-            let nd = spec_dec(s.len() as i128, &mut d);
-            assert!(out.len() == 2 + nd + s.len(), "C09/Arbitrary::format_response_data/total-length");
-            assert!(out[0] == b'#' && out[1] == b'0' + nd as u8, "C09/Arbitrary::format_response_data/header-states-the-number-of-length-digits");
-            assert!(bytes_eq(&out[2..2 + nd], &d[..nd]), "C09/Arbitrary::format_response_data/header-states-the-payload-length");
-            assert!(bytes_eq(&out[2 + nd..], s), "C09/Arbitrary::format_response_data/payload-follows-unchanged");
-        }
-    };
+/// Blocks: payload content symbolic, length concrete per case (crossing the 9/10 and 99/100
+/// digit-count boundaries in the thorough tier).
+macro_rules! block_case {
+    ($p:expr, $n:expr, $as_str:expr) => {{
+        let s = &$p[..$n];
+        let mut out = Out::new();
+        let r = if $as_str {
+            let mut i = 0;
+            while i < $n {
+                kani::assume(s[i] < 0x80);
+                i += 1;
+            }
+            core::str::from_utf8(s).unwrap().format_response_data(&mut out)
+        } else {
+            Arbitrary(s).format_response_data(&mut out)
+        };
+        assert!(r.is_ok(), "C09/Arbitrary::format_response_data/ok");
+        let mut d = [0u8; 40];
+        let nd = spec_dec($n as i128, &mut d);
+        assert!(out.len() == 2 + nd + $n, "C09/Arbitrary::format_response_data/total-length");
+        assert!(out[0] == b'#' && out[1] == b'0' + nd as u8, "C09/Arbitrary::format_response_data/header-states-the-number-of-length-digits");
+        assert!(bytes_eq(&out[2..2 + nd], &d[..nd]), "C09/Arbitrary::format_response_data/header-states-the-payload-length");
+        assert!(bytes_eq(&out[2 + nd..], s), "C09/Arbitrary::format_response_data/payload-follows-unchanged");
+    }};
 }
-block_harness!(block_n12, 12, 16);
-block_harness!(block_n100, 100, 104);
+#[kani::proof]
+#[kani::unwind(14)]
+pub fn block_n11() {
+    let p: [u8; 11] = kani::any();
+    block_case!(p, 0, false);
+    block_case!(p, 1, false);
+    block_case!(p, 9, false);
+    block_case!(p, 10, false);
+    block_case!(p, 11, false);
+    block_case!(p, 2, true);
+}
+#[kani::proof]
+#[kani::unwind(104)]
+pub fn block_n100() {
+    let p: [u8; 100] = kani::any();
+    block_case!(p, 99, false);
+    block_case!(p, 100, false);
+}
 
 /// A list is the elements joined by commas; an empty list is an error, not an empty element.
 #[kani::proof]
@@ -346,39 +373,43 @@ pub fn list_vec_and_arrayvec() {
 /// ANY message text (symbolic, <= 5 plain ASCII bytes): the item is the number, a comma and the
 /// quoted text.  That every STANDARD error's text is plain ASCII (so that this contract applies
 /// to it) is `standard_messages_are_plain`.
-pub static mut MSG: [u8; 5] = [0; 5];
+pub static mut MSG: [u8; 4] = [0; 4];
+macro_rules! error_case {
+    ($n:expr, $ext:expr) => {{
+        let code: i16 = kani::any();
+        let m: &'static [u8] = unsafe { &MSG[..$n] };
+        let base = Error::custom(code, m);
+        let e = if $ext { base.extended(b"xy") } else { base };
+        let mut out = Out::new();
+        let r = e.format_response_data(&mut out);
+        assert!(r.is_ok(), "C09/Error::format_response_data/ok");
+        let mut d = [0u8; 40];
+        let nd = spec_dec(code as i128, &mut d);
+        let tail = if $ext { 3 } else { 0 };
+        assert!(out.len() == nd + 2 + $n + tail + 1, "C09/Error::format_response_data/length");
+        assert!(bytes_eq(&out[..nd], &d[..nd]), "C09/Error::format_response_data/starts-with-the-error-number");
+        assert!(out[nd] == b',' && out[nd + 1] == b'"' && out[out.len() - 1] == b'"', "C09/Error::format_response_data/comma-then-quoted-message");
+        assert!(bytes_eq(&out[nd + 2..nd + 2 + $n], m), "C09/Error::format_response_data/message-text");
+        if $ext {
+            assert!(bytes_eq(&out[nd + 2 + $n..out.len() - 1], b";xy"), "C09/Error::format_response_data/extended-text-after-semicolon");
+        }
+    }};
+}
 #[kani::proof]
 #[kani::unwind(16)]
 pub fn error_item() {
-    let code: i16 = kani::any();
-    let ext: bool = kani::any();
-    let m: &'static [u8] = unsafe {
+    unsafe {
         MSG = kani::any();
-        let n: usize = kani::any();
-        kani::assume(n <= 5);
-        &MSG[..n]
-    };
-    let mut i = 0;
-    while i < m.len() {
-        kani::assume(m[i] < 0x80 && m[i] != b'"');
-        i += 1;
+        let mut i = 0;
+        while i < 4 {
+            kani::assume(MSG[i] < 0x80 && MSG[i] != b'"');
+            i += 1;
+        }
     }
-    let base = Error::custom(code, m);
-    let e = if ext { base.extended(b"xy") } else { base };
-    let mut out = Out::new();
-    let r = e.format_response_data(&mut out);
-    kani::cover!(code == -32768 && m.len() == 5 && ext);
-    assert!(r.is_ok(), "C09/Error::format_response_data/ok");
-    let mut d = [0u8; 40];
-    let nd = spec_dec(code as i128, &mut d);
-    let tail = if ext { 3 } else { 0 };
-    assert!(out.len() == nd + 2 + m.len() + tail + 1, "C09/Error::format_response_data/length");
-    assert!(bytes_eq(&out[..nd], &d[..nd]), "C09/Error::format_response_data/starts-with-the-error-number");
-    assert!(out[nd] == b',' && out[nd + 1] == b'"' && out[out.len() - 1] == b'"', "C09/Error::format_response_data/comma-then-quoted-message");
-    assert!(bytes_eq(&out[nd + 2..nd + 2 + m.len()], m), "C09/Error::format_response_data/message-text");
-    if ext {
-        assert!(bytes_eq(&out[nd + 2 + m.len()..out.len() - 1], b";xy"), "C09/Error::format_response_data/extended-text-after-semicolon");
-    }
+    error_case!(0, false);
+    error_case!(1, true);
+    error_case!(4, false);
+    error_case!(4, true);
 }
 
 /// Every standard error reports its own number and a non-empty plain-ASCII text without quotes.
